@@ -20,6 +20,13 @@ __init__):
  (S) serialization: for every resource class X, gcp/azure_resource_from_dict(X(..).to_dict()) is an X with identical fields
      and bills identical quantities; {GCP,Azure}SlimInstanceConfig.from_dict(c.to_dict()) has the same machine type (hence
      cores and memory), job_private flag and, element-wise, the round-tripped resources.
+ (M) {gcp,azure}_cores_mcpu_to_memory_bytes (the memory figure of every pool job): exactly floor(mcpu * per-core bytes / 1000)
+     for any positive per-core table value, hence super-additive in mcpu and equal to cores * per-core for the whole worker.
+ (P) PoolConfig.convert_requests_to_resources: the memory it returns is (M) of the cores it returns; the cores fit the worker.
+ (W) worker.py Job.__init__ (fragment): the job is billed quantified_resources(spec cores, spec memory, the external storage
+     the worker attaches for it) - 0 on a job-private instance, the request on a pool worker; worker.py keeps these fields
+     fixed after construction, creates disks of exactly that size and reports self.resources; the drivers' create_vm bill the
+     whole worker as quantified_resources(cores * 1000, machine memory, 0).
 """
 from __future__ import annotations
 
@@ -721,6 +728,66 @@ def build(ctx):
     packing_lemma(ctx)
     for cloud in MEMORY_HELPERS:
         memory_share(ctx, cloud)
+    pool_job_memory(ctx)
     worker_job_billing(ctx)
     ctx.witness_search = lambda: core.run_native(open(os.path.join(os.path.dirname(__file__), 'native', 'c13_replay.py')).read(), {})
     ctx.assume('resource quantities are Python ints (unbounded); constructor arguments of int type are non-negative (disk sizes, accelerator counts)')
+
+
+ICC = 'batch/batch/inst_coll_config.py'
+
+
+def pool_job_memory(ctx):
+    """(P) PoolConfig.convert_requests_to_resources - what the front end writes into the spec of a pool job: whenever it
+    accepts a request, the memory figure is <cloud>_cores_mcpu_to_memory_bytes of the cores figure it returns (the per-core
+    share (M) of the cores the job is scheduled and billed with - not of the cores requested, not the memory requested), the
+    cores fit the worker, and the storage is the converted request.  Helpers are uninterpreted functions here."""
+    cx = ClassIndex([ICC])
+    if 'PoolConfig' not in cx.classes:
+        raise pyvc.Undecided('anchor-moved: PoolConfig not found in %s' % ICC)
+    I, Us = z3.IntSort(), pyvc.U
+    mem = {'gcp': z3.Function('gcp_mem', I, Us, Us, I), 'azure': z3.Function('azure_mem', I, Us, I)}
+    adj = {'gcp': z3.Function('gcp_adjust', I, I, Us, Us, I), 'azure': z3.Function('azure_adjust', I, I, Us, I)}
+    pack = z3.Function('packable', I, I)
+    sto_none = z3.Function('storage_refused', Us, I, z3.BoolSort())
+    sto_gib = z3.Function('storage_gib', Us, I, I)
+    zi = lambda v: pyvc.to_z3(v, 'int')
+    zu = lambda v: pyvc.to_z3(v, 'U')
+
+    def storage(eng, st, args, kw, node):
+        cl, b = zu(args[0]), zi(args[1])
+        raise pyvc.Fork(node, [('storage-refused', sto_none(cl, b), 'value', None, None), ('storage-ok', z3.Not(sto_none(cl, b)), 'value', sto_gib(cl, b), None)])
+
+    calls = {
+        'requested_storage_bytes_to_actual_storage_gib': storage,
+        'gcp_adjust_cores_for_memory_request': lambda eng, st, args, kw, node: adj['gcp'](zi(args[0]), zi(args[1]), zu(args[2]), zu(args[3])),
+        'azure_adjust_cores_for_memory_request': lambda eng, st, args, kw, node: adj['azure'](zi(args[0]), zi(args[1]), zu(args[2])),
+        'adjust_cores_for_packability': lambda eng, st, args, kw, node: pack(zi(args[0])),
+        'gcp_cores_mcpu_to_memory_bytes': lambda eng, st, args, kw, node: mem['gcp'](zi(args[0]), zu(args[1]), zu(args[2])),
+        'azure_cores_mcpu_to_memory_bytes': lambda eng, st, args, kw, node: mem['azure'](zi(args[0]), zu(args[1])),
+    }
+    fam = z3.Const('GCP_MACHINE_FAMILY', Us)
+    inl = Inliner(ctx, cx, calls=calls, consts={'GCP_MACHINE_FAMILY': fam})
+    wt, wc = z3.Const('pool_worker_type', Us), z3.Int('pool_worker_cores')
+    rc, rm, rs = z3.Int('req_cores_mcpu'), z3.Int('req_memory_bytes'), z3.Int('req_storage_bytes')
+    for cloud in ('gcp', 'azure'):
+        me = cx.new_instance('PoolConfig', {'cloud': cloud, 'worker_type': wt, 'worker_cores': wc})
+        hyp = [rc >= 0, rm >= 0, rs >= 0, wc >= 1]
+        outs = inl.run_method(me, 'convert_requests_to_resources', args=[rc, rm, rs], pc=hyp, label='PoolConfig.convert_requests_to_resources[%s]' % cloud)
+        name = 'C13/PoolConfig.convert_requests_to_resources[%s]/' % cloud
+        bad = [o for o in outs if o[0] == 'raise']
+        ctx.add(core.decided(name + 'never-raises', not bad, repr([(b[1], b[2].trace[-3:]) for b in bad]), kind='vc'))
+        accepted = [(p, s) for k, p, s in outs if k == 'value' and p is not None]
+        shape = all(isinstance(p, tuple) and len(p) == 3 for p, s in accepted)
+        ctx.add(core.decided(name + 'accepts-with-a-(cores,memory,storage)-triple', bool(accepted) and shape, repr([p for p, s in accepted])[:300], kind='vacuity'))
+        if not (accepted and shape):
+            continue
+        for i, (p, s) in enumerate(accepted):
+            sfx = '' if len(accepted) == 1 else '#%d' % (i + 1)
+            c_, m_, g_ = zi(p[0]), zi(p[1]), zi(p[2])
+            share = mem['gcp'](c_, fam, wt) if cloud == 'gcp' else mem['azure'](c_, wt)
+            ctx.add(core.valid(name + 'memory-is-the-per-core-share-of-the-cores-returned' + sfx, list(s.pc), m_ == share))
+            ctx.add(core.valid(name + 'cores-returned-fit-the-worker' + sfx, list(s.pc), c_ <= wc * 1000))
+            ctx.add(core.valid(name + 'storage-is-the-converted-request' + sfx, list(s.pc), g_ == sto_gib(zu(cloud), rs)))
+            ctx.add(core.satisfiable(name + 'vacuity/acceptance-reachable' + sfx, list(s.pc)))
+            ctx.add(core.satisfiable(name + 'canary/memory-is-not-simply-the-memory-requested' + sfx, list(s.pc) + [m_ != rm]))
